@@ -336,13 +336,13 @@ func c05R2(p *core.Program, r *core.Report, pl *pipeline) {
 		if !ok {
 			continue
 		}
-		if id, ok := kv.Key.(*ast.Ident); ok && id.Name == "genfile" {
+		if id, ok := kv.Key.(*ast.Ident); ok && isRole(p, fieldVarOf(info, id), "ctx.genfile") {
 			if c, ok := ast.Unparen(kv.Value).(*ast.CallExpr); ok && core.CalleeFunc(info, c) == ctor.Obj() {
 				fresh = true
 			}
 		}
 		// fields that must not be inherited
-		if id, ok := kv.Key.(*ast.Ident); ok && (id.Name == "defers" || id.Name == "ignore") {
+		if id, ok := kv.Key.(*ast.Ident); ok && (isRole(p, fieldVarOf(info, id), "ctx.callbacks") || isRole(p, fieldVarOf(info, id), "ctx.ignore")) {
 			r.Bad(rule, f, "per-generator context starts without inherited "+id.Name, kv.Pos(), "`"+core.ExprStr(kv)+"`: callbacks / the ignore mark of another generator or package are carried into this one")
 		}
 	}
@@ -350,37 +350,30 @@ func c05R2(p *core.Program, r *core.Report, pl *pipeline) {
 	// constructor freshness
 	cinfo := ctor.Info()
 	okCtor := false
-	if len(ctor.Body.List) == 1 {
-		if ret, ok := ctor.Body.List[0].(*ast.ReturnStmt); ok && len(ret.Results) == 1 {
-			if u, ok := ast.Unparen(ret.Results[0]).(*ast.UnaryExpr); ok && u.Op == token.AND {
-				if cl, ok := u.X.(*ast.CompositeLit); ok {
-					body, imports := false, false
-					for _, el := range cl.Elts {
-						kv, ok := el.(*ast.KeyValueExpr)
-						if !ok {
-							continue
-						}
-						id, _ := kv.Key.(*ast.Ident)
-						if id == nil {
-							continue
-						}
-						switch id.Name {
-						case "body":
-							if c := core.AsCall(cinfo, kv.Value, "bytes.NewBuffer", "bytes.NewBufferString"); c != nil {
-								body = true
-							}
-							if u2, ok := ast.Unparen(kv.Value).(*ast.UnaryExpr); ok && u2.Op == token.AND {
-								body = true
-							}
-						case "imports":
-							if core.AsCall(cinfo, kv.Value, core.G("pkg/namer.NewDefaultImportTracker")) != nil {
-								imports = true
-							}
+	if rets := ownReturnsOf(ctor); len(rets) == 1 && len(rets[0].Results) == 1 {
+		if inits, ok := structInits(cinfo, ctor.Body, rets[0].Results[0]); ok {
+			body, imports := false, false
+			for fld, v := range inits {
+				switch fieldRole(p, fld) {
+				case "file.body":
+					if c := core.AsCall(cinfo, v, "bytes.NewBuffer", "bytes.NewBufferString"); c != nil {
+						body = true
+					}
+					if u2, ok := ast.Unparen(v).(*ast.UnaryExpr); ok && u2.Op == token.AND {
+						if _, isLit := ast.Unparen(u2.X).(*ast.CompositeLit); isLit {
+							body = true
 						}
 					}
-					okCtor = body && imports
+					if c := core.AsCall(cinfo, v, "builtin.new"); c != nil {
+						body = true
+					}
+				case "file.imports":
+					if core.AsCall(cinfo, v, core.G("pkg/namer.NewDefaultImportTracker")) != nil {
+						imports = true
+					}
 				}
 			}
+			okCtor = body && imports
 		}
 	}
 	r.Check(okCtor, rule, ctor, "the file constructor allocates a new buffer and a new import tracker", ctor.Node().Pos(), "&genfile{body: bytes.NewBuffer(nil), imports: NewDefaultImportTracker()}", "the constructor reuses a buffer or tracker (pool, package variable, parameter)")
@@ -394,17 +387,34 @@ func c05R2(p *core.Program, r *core.Report, pl *pipeline) {
 			res, _ := core.Resolve(nt.Info(), nt.Body, ret.Results[0])
 			if u, ok := ast.Unparen(res).(*ast.UnaryExpr); ok && u.Op == token.AND {
 				if cl, ok := u.X.(*ast.CompositeLit); ok {
+					// freshly allocated empty maps among the fields, those of embedded struct literals included
 					maps := 0
-					for _, el := range cl.Elts {
-						if kv, ok := el.(*ast.KeyValueExpr); ok {
-							if m, ok := ast.Unparen(kv.Value).(*ast.CompositeLit); ok && isMapType(nt.Info().TypeOf(m)) && len(m.Elts) == 0 {
-								maps++
+					var count func(cl *ast.CompositeLit)
+					count = func(cl *ast.CompositeLit) {
+						for _, el := range cl.Elts {
+							kv, ok := el.(*ast.KeyValueExpr)
+							if !ok {
+								continue
 							}
-							if c, ok := ast.Unparen(kv.Value).(*ast.CallExpr); ok && core.CalleeName(nt.Info(), c) == "builtin.make" {
+							v := ast.Unparen(kv.Value)
+							if u, isU := v.(*ast.UnaryExpr); isU && u.Op == token.AND {
+								v = ast.Unparen(u.X)
+							}
+							if m, ok := v.(*ast.CompositeLit); ok {
+								if isMapType(nt.Info().TypeOf(m)) {
+									if len(m.Elts) == 0 {
+										maps++
+									}
+								} else {
+									count(m)
+								}
+							}
+							if c, ok := v.(*ast.CallExpr); ok && core.CalleeName(nt.Info(), c) == "builtin.make" && isMapType(nt.Info().TypeOf(c)) {
 								maps++
 							}
 						}
 					}
+					count(cl)
 					okNT = maps == 2
 				}
 			}
@@ -685,4 +695,13 @@ func ownReturnsOf(f *core.Func) []*ast.ReturnStmt {
 		return true
 	})
 	return out
+}
+
+// fieldVarOf: the field a composite-literal key identifier names.
+func fieldVarOf(info *types.Info, id *ast.Ident) *types.Var {
+	v, _ := info.ObjectOf(id).(*types.Var)
+	if v != nil && v.IsField() {
+		return v
+	}
+	return nil
 }
